@@ -1,7 +1,35 @@
-import Driver.Util
-open Lean
+import Driver.ProgJson
+open Lean Heph
 namespace Driver.Prog
 
-def handle : Handler := fun _ _ => none
+mutual
+partial def countNodes : Node → Nat
+  | .block b _ => 1 + countL b
+  | .superInst _ a => 1 + (match a with | some l => countL l | none => 0)
+  | .classDecl _ _ _ f s fn _ => 1 + countL f + countL s + countL fn
+  | .varDecl _ e _ _ _ => 1 + countNodes e
+  | .callArg e _ => 1 + countNodes e
+  | .paramDecl _ _ _ d => 1 + (match d with | some x => countNodes x | none => 0)
+  | .funcDecl _ ps _ _ b _ _ _ _ => 1 + countL ps + (match b with | some x => countNodes x | none => 0)
+  | .lambda _ ps _ b _ => 1 + countL ps + countNodes b
+  | .funcRef _ r _ => 1 + (match r with | some x => countNodes x | none => 0)
+  | .arrayE _ _ es => 1 + countL es
+  | .isE e _ _ => 1 + countNodes e
+  | .binop _ l r _ => 1 + countNodes l + countNodes r
+  | .cond c t f _ => 1 + countNodes c + countNodes t + countNodes f
+  | .newE _ a _ => 1 + countL a
+  | .fieldAccess e _ => 1 + countNodes e
+  | .call _ a r _ _ _ => 1 + countL a + (match r with | some x => countNodes x | none => 0)
+  | .assign _ e r => 1 + countNodes e + (match r with | some x => countNodes x | none => 0)
+  | _ => 1
+partial def countL (l : List Node) : Nat := l.foldl (fun n x => n + countNodes x) 0
+end
+
+def handle : Handler := fun op j =>
+  match op with
+  | "prog.count" => some (do
+      let (_, p) ← parseProgramObj j
+      pure (res (Json.num (JsonNumber.fromNat (countL p.decls)))))
+  | _ => none
 
 end Driver.Prog
